@@ -100,7 +100,7 @@ func drawC43Request(x *simkit.Exec, tenants []string, windows [][2]int64) *c43Re
 		if v := []string{"", "true", "false"}[x.Draw("dedup", 3)]; v != "" {
 			f.Set("dedup", v)
 		}
-		if v := [][]string{nil, {"r"}, {"r", "z"}, {"z", "r"}, {"r,z"}}[x.Draw("replica-labels", 5)]; v != nil {
+		if v := [][]string{nil, {"r"}, {"r", "z"}, {"z", "r"}, {"r,z"}, {"r\\", "z"}, {"r\\,z"}}[x.Draw("replica-labels", 7)]; v != nil {
 			f["replicaLabels[]"] = v
 		}
 		if v := []string{"", "60", "300"}[x.Draw("lookback", 3)]; v != "" {
@@ -124,7 +124,7 @@ func drawC43Request(x *simkit.Exec, tenants []string, windows [][2]int64) *c43Re
 		if v := []string{"", "true", "false"}[x.Draw("dedup", 3)]; v != "" {
 			f.Set("dedup", v)
 		}
-		if v := [][]string{nil, {"r"}, {"r", "z"}}[x.Draw("replica-labels", 3)]; v != nil {
+		if v := [][]string{nil, {"r"}, {"r", "z"}, {"r\\", "z"}, {"r:rl=z"}, {"r\\:rl=z"}}[x.Draw("replica-labels", 6)]; v != nil {
 			f["replicaLabels[]"] = v
 		}
 	}
@@ -521,7 +521,7 @@ func variantOf(x *simkit.Exec, base *c43Req, tenants []string) *c43Req {
 		if kind == "range" {
 			f.Set("step", []string{"60", "30", "120"}[x.Draw("step", 3)])
 		} else if kind == "series" {
-			f["replicaLabels[]"] = [][]string{{"r"}, {"z"}}[x.Draw("rl", 2)]
+			f["replicaLabels[]"] = [][]string{{"r"}, {"z"}, {"r\\", "z"}, {"r:rl=z"}}[x.Draw("rl", 4)]
 		}
 	case 5:
 		if kind == "range" {
@@ -533,7 +533,7 @@ func variantOf(x *simkit.Exec, base *c43Req, tenants []string) *c43Req {
 		f.Set("partial_response", []string{"true", "false"}[x.Draw("pr", 2)])
 	case 7:
 		if kind == "range" {
-			f["replicaLabels[]"] = [][]string{{"r"}, {"r", "z"}, {"r,z"}}[x.Draw("rl", 3)]
+			f["replicaLabels[]"] = [][]string{{"r"}, {"r", "z"}, {"r,z"}, {"r\\", "z"}, {"r\\,z"}}[x.Draw("rl", 5)]
 		}
 	}
 	return r
